@@ -223,8 +223,8 @@ def insertOrdered (sv : Server) (sid : Nat) (key before : Bytes) (vals : List Na
         let sv := insertOrderedChild sv sid v (some x) before [] true
         sv.updSess sid (fun s => { s with indexingPresent := true })) sv) sv
 
-/-- PR_COMMAND_REORDERDATA with one string field (name = node pattern, value = move-before) -/
-def reorder (sv : Server) (sid : Nat) (key before : Bytes) : Server :=
+/-- PR_COMMAND_REORDERDATA with one string field (name = node pattern, value = move-before): the index moves -/
+def reorderCore (sv : Server) (sid : Nat) (key before : Bytes) : Server :=
   match sv.sess? sid with
   | none => sv
   | some s =>
@@ -234,6 +234,16 @@ def reorder (sv : Server) (sid : Nat) (key before : Bytes) : Server :=
       match v.getLast? with
       | none => sv
       | some nm => if v.length ≤ 2 then sv else reorderChild sv v.dropLast nm before) sv
+
+/-- PR_COMMAND_REORDERDATA: `ReorderDataCallback` also sets `_indexingPresent` whenever it calls `ReorderChild` (the call may give
+    the parent an index, which the session's own client has to be told about) -/
+def reorder (sv : Server) (sid : Nat) (key before : Bytes) : Server :=
+  let sv' := reorderCore sv sid key before
+  match sv.sess? sid with
+  | none => sv'
+  | some s =>
+    if (travSession sv s (pmOfKeys [(key, none)] none) cbContinue).any (fun v => decide (2 < v.length))
+    then sv'.updSess sid (fun s => { s with indexingPresent := true }) else sv'
 
 /-- `PassMessageCallbackAux`: deliver to the owning session, then on to the next session -/
 def route (sv : Server) (sid : Nat) (pm : PM) (what : String) : Server :=
